@@ -771,7 +771,7 @@ class Tokenizer:
             if not chunk:
                 continue
             if data.context & data.CX_NAME:
-                if chunk in self.MARKERS or chunk.isspace():
+                if chunk in self.MARKERS or chunk.isspace() or chunk == "\\":
                     self._fail_route()  # Tags must start with text, not spaces
                 data.context = data.CX_NOTE_SPACE
             elif chunk.isspace():
